@@ -35,6 +35,8 @@ Definition step (s : st) (r : list Z) : option st :=
   let k := rkey r in
   let c := getc s k in
   let t := rtime r in
+  (* [-999] panic, [-998] the harness had to kill a run that did not terminate, [-997] crash *)
+  if tag r <? 0 then None else
   if tag r =? 8 then
     (* probe: entering Closed/Draining arms the close timer within 3 PTO *)
     let stt := pf r 0 in
@@ -145,4 +147,6 @@ Definition step (s : st) (r : list Z) : option st :=
   else Some s.
 
 Definition monitor (i : ops) (o : outs) : option Z :=
-  snd (run_from step 0 {| cs := []; created := []; late := param i 41 0; known_ok := param i 902 0 =? 1 |} o).
+  match o with [] => Some 0 | _ => (* an empty trace is not a run *)
+  snd (run_from step 0 {| cs := []; created := []; late := param i 41 0; known_ok := param i 902 0 =? 1 |} o)
+  end.
